@@ -281,7 +281,7 @@ def run_sem(h, r):
     if bad is not None:
         i, why = bad
         kind = "sem_effects_changed" if why.startswith("effect") else "sem_result_changed"
-        h.mismatch({"check": kind, "entry": entry, "removed": rm,
+        h.mismatch({"check": kind, "entry": entry,
                     "removed_effect_op": removed_effect[0] if removed_effect else "-"}, r,
                    f"{entry} changed the behaviour on input {vecs[i]!r}: {why}\nremoved op kinds: {removed}\n"
                    + progen.render(module)[:2500])
